@@ -400,10 +400,14 @@ package s3db
 // OpenKV: read-only options never cause a PUT or DELETE (C13); a failure
 // leaves the bucket untouched only in that case.
 //@ func OpenKV
-//@   modifies puts, deletes, inMemoryS3, inMemoryBucket
-//@   ensures imp(s3opts.ReadOnly, puts == old(puts) && deletes == old(deletes))
-//@   ensures imp(err == nil, result0 != nil && fresh(result0) && result0.Root != nil)
+//@   requires imp(inMemoryS3 != nil, inMemoryS3.Client != nil)
+//@   modifies puts, deletes, lists, lastPutPrefix, lastPutName, lastPutOK, inMemoryS3, inMemoryBucket
+//@   ensures readonly-no-write: imp(s3opts.ReadOnly, puts == old(puts) && deletes == old(deletes))
+//@   ensures named-no-list: imp(s3opts.OnlyVersions != nil, lists == old(lists))
+//@   ensures named-all-merged: forall j int :: imp(err == nil && s3opts.OnlyVersions != nil && 0 <= j && j < len(s3opts.OnlyVersions), has(result0.Root.mergedRoots, s3opts.OnlyVersions[j]))
+//@   ensures imp(err == nil, result0 != nil && fresh(result0) && result0.Root != nil && fresh(result0.Root) && dbOK(result0.Root) && result0.Root.readonly == s3opts.ReadOnly)
 //@   ensures imp(err != nil, result0 == nil)
+//@   ensures imp(inMemoryS3 != nil, inMemoryS3.Client != nil)
 
 //@ func convertSchema
 //@   requires t != nil
@@ -415,7 +419,9 @@ package s3db
 // New: never panics, rejects duplicated and unknown arguments, and registers
 // the table only on success (an error leaves the registry unchanged).
 //@ func New
-//@   modifies contents(tables), puts, deletes, inMemoryS3, inMemoryBucket
+//@   requires imp(inMemoryS3 != nil, inMemoryS3.Client != nil)
+//@   modifies contents(tables), puts, deletes, lists, lastPutPrefix, lastPutName, lastPutOK, inMemoryS3, inMemoryBucket
+//@   ensures readonly-no-write: imp(err == nil && result0.S3Options.ReadOnly, puts == old(puts) && deletes == old(deletes))
 //@   ensures registry-on-error: forall k string :: imp(err != nil, has(tables, k) == old(has(tables, k)) && tables[k] == old(tables[k]))
 //@   ensures registered: imp(err == nil, result0 != nil && fresh(result0) && result0.Name == old(args[0]) && has(tables, old(args[0])) && tables[old(args[0])] == result0 && !old(has(tables, args[0])))
 //@   ensures others-kept: forall k string :: imp(err == nil && k != old(args[0]), has(tables, k) == old(has(tables, k)) && tables[k] == old(tables[k]))
@@ -752,7 +758,7 @@ package s3db
 
 //@ func Vacuum
 //@   option seqtree
-//@   requires ctx != nil && absOK(ns(beforeTime))
+//@   requires ctx != nil
 //@   requires imp(has(tables, tableName) && tables[tableName] != nil, vtOK(tables[tableName]))
 //@   requires forall i int :: imp(has(tables, tableName) && tables[tableName] != nil, vacShape(vacRoot(tableName), i))
 //@   modifies puts, deletes, lastPutPrefix, lastPutName, lastPutOK, tables[tableName].Tree.Root
@@ -767,8 +773,9 @@ package s3db
 // ... a delete marker at or after the cutoff is kept as it was ...
 //@   ensures marker-kept: forall a int :: imp(has(tables, tableName) && tables[tableName] != nil && old(has(T(vacRoot(tableName)), a)) && old(!tomb(T(vacRoot(tableName))[a])) && !old(delBefore(T(vacRoot(tableName))[a], beforeTime)),
 //@       has(T(vacRoot(tableName)), a) && T(vacRoot(tableName))[a] == old(T(vacRoot(tableName))[a]))
-// ... and after a successful vacuum no delete marker older than the cutoff occupies the table
-//@   ensures reclaimed-all-before-cutoff: forall a int :: imp(result == nil && old(has(T(vacRoot(tableName)), a)) && old(delBefore(T(vacRoot(tableName))[a], beforeTime)), !has(T(vacRoot(tableName)), a))
+// ... and after a successful vacuum no delete marker older than the cutoff occupies the table (for cutoffs the
+// int64 nanosecond clock can express and that are later than the stamp vacuum buries markers with, i.e. 1754..2262)
+//@   ensures reclaimed-all-before-cutoff: forall a int :: imp(result == nil && zeroStamp() < wrap64(ns(beforeTime)) && wrap64(ns(beforeTime)) == ns(beforeTime) && old(has(T(vacRoot(tableName)), a)) && old(delBefore(T(vacRoot(tableName))[a], beforeTime)), !has(T(vacRoot(tableName)), a))
 //@   loop 1 invariant db != nil && dbOK(db) && fresh(db) && tc != nil && tc.Cursor != nil && table != nil && table == tables[tableName] && table.Tree != nil
 //@   loop 1 invariant puts == old(puts) && deletes == old(deletes) && db.readonly == old(tables[tableName].Tree.Root.readonly)
 //@   loop 1 invariant gf(tc.Cursor, "snap") == old(vacRoot(tableName)) && vacRoot(tableName) == old(vacRoot(tableName)) && 0 <= gf(tc.Cursor, "pos") && gf(tc.Cursor, "pos") <= seqN(gf(tc.Cursor, "snap"))
